@@ -41,8 +41,13 @@ def run(pid, tier):
             if n_cases[0] in (40000, 90000):
                 c.sample({"direction": "spec->code", "case": o})
         res = vlib.run_tlc("MC_Wire", cfg, pid + "/mc", workers=12, timeout=3000, print_sink=sink, xmx="8g")
-    vlib.expect_model_ok(res, "Wire.tla (%s)" % cfg)
-    c.add_model("Wire/" + cfg, res)
+        vlib.expect_model_ok(res, "Wire.tla (%s)" % cfg)
+        c.add_model("Wire/" + cfg, res)
+        if tier == "thorough":
+            # double mutations of small builder messages
+            res2 = vlib.run_tlc("MC_Wire", "MC_Wire_thorough2.cfg", pid + "/mc2", workers=12, timeout=3000, print_sink=sink, xmx="8g")
+            vlib.expect_model_ok(res2, "Wire.tla (MC_Wire_thorough2.cfg)")
+            c.add_model("Wire/MC_Wire_thorough2.cfg", res2)
 
     out = vlib.run_harness(["wire", "replay", "--in", cases], timeout=3000)
     for r in out:
